@@ -40,8 +40,15 @@ size_t g_tfin;                /* the releaser's published tail offset when the c
 size_t g_nload;               /* number of tail loads so far                                                  */
 size_t g_hfin;                /* release: the acquirer's head offset when release returns                     */
 
+/* replay witnesses (DESIGN 3.5): head/tail offsets at entry and the released buffer's place are pointer-valued inputs
+ * created by the requires clauses, so they do not show up as scalars in a trace.  An enforcing harness sets r_cap and
+ * gives r_h, r_t, r_boff, r_bcap arbitrary values; the clauses below tie them to the inputs.  Being equalities with
+ * otherwise unconstrained ghosts they exclude no input; with r_cap off (replaced calls: cycle, drain) they are vacuous. */
+bool r_cap;
+size_t r_h, r_t, r_boff, r_bcap;
+
 /* DFCC starts every harness with NONDET statics: each harness begins with RB_GHOST_RESET() */
-#define RB_GHOST_RESET() do { GHOST_RESET_COMMON(); GHOST_RESET_ALLOC(); g_nload = 0; } while (0)
+#define RB_GHOST_RESET() do { GHOST_RESET_COMMON(); GHOST_RESET_ALLOC(); g_nload = 0; r_cap = false; } while (0)
 
 #define POFF(p) ((size_t)__CPROVER_POINTER_OFFSET(p))
 #define OUT(x, h, t) ((t) <= (h) ? ((t) <= (x) && (x) < (h)) : ((x) >= (t) || (x) < (h)))
@@ -73,7 +80,8 @@ size_t g_hfin;                /* release: the acquirer's head offset when releas
     __CPROVER_requires(__CPROVER_pointer_in_range_dfcc((rb)->allocation, (uint8_t *)(rb)->tail.value, (rb)->allocation_end)) \
     __CPROVER_requires((rb)->allocator != NULL)                                                                        \
     __CPROVER_requires(POFF((rb)->head.value) != 0 || POFF((rb)->tail.value) == 0)                                     \
-    __CPROVER_requires(g_x < g_S)
+    __CPROVER_requires(g_x < g_S)                                                                                      \
+    __CPROVER_requires(r_cap ==> (r_h == POFF((rb)->head.value) && r_t == POFF((rb)->tail.value)))
 
 #define H0(rb) POFF(OLD((rb)->head.value))
 #define T0(rb) POFF(OLD((rb)->tail.value))
@@ -285,6 +293,7 @@ __CPROVER_requires(__CPROVER_pointer_in_range_dfcc(ring_buffer->allocation, buf-
 __CPROVER_requires(buf->capacity >= 1 && buf->capacity <= g_S - POFF(buf->buffer))
 __CPROVER_requires(REL_IN(POFF(buf->buffer), buf->capacity, POFF(ring_buffer->head.value), POFF(ring_buffer->tail.value)))
 __CPROVER_requires(HADV(POFF(ring_buffer->head.value), g_hfin, POFF(ring_buffer->tail.value), g_S))
+__CPROVER_requires(r_cap ==> (r_boff == POFF(buf->buffer) && r_bcap == buf->capacity))
 __CPROVER_assigns(ring_buffer->tail.value, *buf)
 /* the end of the buffer is published as the new tail; head untouched */
 __CPROVER_ensures(__CPROVER_same_object(ring_buffer->tail.value, ring_buffer->allocation) && T1MEM(ring_buffer) == BEND(buf))
